@@ -72,6 +72,17 @@ CHECKS = {
         note=TB + " x/text norm is the NFC oracle; WinAnsi/MacRoman tables cross-checked against two on-disk sources, PDFDoc/Standard transcribed from Annex D, Symbol/ZapfDingbats only a handful of entries.",
         technique="TLA+ decoding reference + rendered CMap programs enumerated by TLC, replay through the font decoders, trace validation",
     ),
+    "C10": dict(
+        text="PageSelect.tla gives builder-call sequences (Pages / PageRange incl. duplicates, reversed and out-of-range arguments) their "
+             "set meaning and TLC checks commutation, idempotence and ascending order while enumerating them; Lifecycle.tla models "
+             "extractors, derivation, non-terminal/terminal operations, Close and the handles behind them, proves DeriveIsPure / "
+             "OneOwner / release at quiescence for own-reader derivation and refutes the pointer-sharing clone of the pinned code. "
+             "Selections are replayed through Text(), Document() page numbers and Chunks() page metadata; every 4-operation history "
+             "is replayed on real extractors with /proc/self/fd counted after each step and validated by LifecycleTrace.tla.",
+        design_ref="4.10",
+        note=TB + " Empty selections are left unspecified (only consistency is asserted); descriptor counts are upper-bounded by the specification and exact at quiescence.",
+        technique="TLA+ selection algebra and handle-lifecycle model + TLC, API history replay with descriptor counting, trace validation",
+    ),
     "C08": dict(
         text="GState.tla is the ISO 32000 graphics/text-state machine (one action per operator). TLC checks its invariants "
              "exhaustively (all programs to a bounded length over a 21-operator alphabet, and refutes the post-multiplying "
